@@ -321,7 +321,7 @@ def run(F, R, tier):
         # no early exit between the removals other than returning an embedded hit
         brk = [n for n in H.walk(H.root(h)) if n.get("k") == "break" and not n.get("exp")]
         r5.require(not brk, (fn, "early-break"), "remove_method_and_scope leaves its search loop early: later relationship sets keep their references")
-    r5.floor(35)
+    r5.floor(20)   # inertness is guarded per function by the `table` requirement; the site count varies with how the arms are split into helpers
 
     # ------------------------------------------------------------------ R6 serde round-trip wiring
     r6 = R.rule("C04-R6", "T12", "what serialisation omits deserialisation restores: skip_serializing_if fields are Option or defaulted; MethodRef is untagged with Embed before Refer")
@@ -351,8 +351,7 @@ def run(F, R, tier):
         if not r7.anchor(F.hir(fn), fn):
             continue
         tab = SR.Table(F, fn, opaque=r"Queryable.*::query(_mut)?$", rule=r7, max_paths=4000)
-        ps_ = [p_.get("name") for p_ in F.hir(fn).get("params", []) if p_.get("k") == "bind"]
-        Q0 = SR.param(ps_[1] if len(ps_) > 1 else "query")      # the query parameter, whatever it is called
+        Q0 = SR.param(SY.param_name(F, fn, 1, "query"))      # the query parameter, by the name the evaluator gives it
         n_ref = n_emb = n_gp = 0
         order_seen = set()
         for q in tab.paths:
